@@ -24,3 +24,4 @@ REGISTRY["min_element"] = ("mincurve", "element")
 REGISTRY["consts"] = ("consts", None)
 REGISTRY["r1cs_sound"] = ("r1cs", "sound")
 REGISTRY["r1cs_compl"] = ("r1cs", "compl")
+REGISTRY["min_invsqrt"] = ("mincurve", "invsqrt")
